@@ -442,7 +442,12 @@ Error BaseCompiler::_new_const(Out<BaseMem> out, ConstPoolScope scope, const voi
   }
 
   if (!_const_pools[uint32_t(scope)]) {
-    ASMJIT_PROPAGATE(new_const_pool_node(Out(_const_pools[uint32_t(scope)])));
+    ConstPoolNode* new_pool = nullptr;
+    Error pool_err = new_const_pool_node(Out(new_pool));
+    if (ASMJIT_UNLIKELY(pool_err != Error::kOk)) {
+      return report_error(pool_err);
+    }
+    _const_pools[uint32_t(scope)] = new_pool;
   }
 
   ConstPoolNode* pool = _const_pools[uint32_t(scope)];
